@@ -231,6 +231,8 @@ func c09Templates() []c09Tpl {
 		{"mutual", `func a(n) {b(n + 1)}; func b(n) {a(n + 1)}; a(0)`, "depth"},
 		{"closure-rec", `g = n => g(n + 1); g(0)`, "depth"},
 		{"self-rec", `(n => self(n + 1))(0)`, "depth"},
+		{"macro-loop", `m = macro(x) {for true {}}; m(1)`, ""},
+		{"macro-rec", `m = macro(x) {func r(n) {r(n + 1)}; r(0)}; m(1)`, ""},
 	}
 	for _, k := range []int{0, 5, 20, 60} {
 		t = append(t, c09Tpl{fmt.Sprintf("rec-wrapped-%d", k), "func f(n) {" + c09Wrap(k, "f(n + 1)") + "}; f(0)", "depth"})
